@@ -201,6 +201,21 @@ class C10(IRCheck):
                             ia, ib = t.const(nbytes(x, rng.choice([wa, w]))), t.const(nbytes(y, rng.choice([wb, w])))
                             gs.append([case("g%d" % k, "fold", t, t.bin(op, ia, ib, w), env)])
                             k += 1
+        # operands made by narrowing a wider constant (Const.WithWidth keeps the backing array: the lifter's address
+        # constants, register and memory values are made this way): the dropped bytes must stay dropped
+        for w in (2, 3, 4, 8, 16):
+            for wa in sorted({1, max(1, w // 2), w - 1}):
+                for op in OPS + [0]:
+                    for tail in ([0xAA] * (w - wa), [0xFF] * w, [1]):
+                        t = Table()
+                        a = [rng.randrange(1, 256) for _ in range(wa)]
+                        ia = t.const(a, tail=tail)
+                        ib = t.const(rng.choice([[0] * w, [1], [8 * wa], [3] + [0] * (w - 1), nbytes(rng.getrandbits(8 * w), w)]),
+                                     tail=rng.choice([None, [0xEE] * 3]))
+                        x, y = (ia, ib) if rng.random() < 0.6 else (ib, ia)
+                        root = t.less(x, y, t.const([1], tail=[7]), t.const([2]), w) if op == 0 else t.bin(op, x, y, w)
+                        gs.append([case("g%d" % k, "fold", t, root, env)])
+                        k += 1
         self.exhaustive = tier == "thorough"
         return gs
 
